@@ -2,7 +2,7 @@
    count times the samples per frame (minus encoder delay and padding), for all 32-bit counts. *)
 From Coq Require Import ZArith List Bool Lia.
 Import ListNotations.
-Require Import Base.Py Base.ZList Model.InfoBase Model.InfoMpeg Model.InfoXing Gen.Gen_tables Proofs.C05_bits Proofs.C05_mpeg Proofs.C05_xing2.
+Require Import Base.Py Base.ZList Model.InfoBase Model.InfoMpeg Model.InfoXing Gen.Gen_tables Proofs.C05_bits Proofs.C05_mpeg.
 Open Scope Z_scope.
 
 (* ------------------------------------------------------------------ finite part: every Layer III header *)
@@ -48,7 +48,6 @@ Proof.
 Qed.
 
 (* ------------------------------------------------------------------ symbolic part: the tag parsers *)
-Definition lame399r : list Z := [76;65;77;69;51;46;57;57;114].
 
 Lemma lame_version_399r vm lp delay padding rest :
   lame_parse_version (firstn 20 (build_lame_tag lame399r vm lp delay padding ++ rest)) = Some (3, 99, true).
